@@ -7,6 +7,7 @@
 package main
 
 import (
+	"bufio"
 	"bytes"
 	"encoding/base64"
 	"encoding/hex"
@@ -16,7 +17,10 @@ import (
 	"io/ioutil"
 	"math/rand"
 	"net/http"
+	"os"
+	"os/exec"
 	"regexp"
+	"runtime"
 	"strconv"
 	"strings"
 	"sync"
@@ -47,6 +51,15 @@ type MsgA struct {
 
 // MsgB is the argument of the lenient handler (websocket and REST PUT).
 type MsgB struct {
+	S string
+	I int64
+	B bool
+	D []byte
+}
+
+// MsgG is the argument of the gated handler (websocket): lenient, but it waits at a
+// gate the harness controls, so that requests can be made to overlap.
+type MsgG struct {
 	S string
 	I int64
 	B bool
@@ -107,8 +120,28 @@ func lenient(tag int, m *MsgB) (*Reply, error) {
 	return &Reply{tag, m.S, m.I, !m.B, m.D}, nil
 }
 
-func wsA(m *MsgA) (*Reply, error)   { return strict(1, m) }
-func wsB(m *MsgB) (*Reply, error)   { return lenient(2, m) }
+func wsA(m *MsgA) (*Reply, error) { return strict(1, m) }
+func wsB(m *MsgB) (*Reply, error) { return lenient(2, m) }
+
+// a gate: the handler of the request whose I field is the key announces itself on
+// arrived and waits for release
+type gate struct {
+	release chan struct{}
+	once    sync.Once
+}
+
+var gates sync.Map // int64 -> *gate
+var gateArrived = make(chan int64, 256)
+
+func (g *gate) open() { g.once.Do(func() { close(g.release) }) }
+
+func wsG(m *MsgG) (*Reply, error) {
+	if v, ok := gates.Load(m.I); ok {
+		gateArrived <- m.I
+		<-v.(*gate).release
+	}
+	return lenient(3, &MsgB{m.S, m.I, m.B, m.D})
+}
 func restA(m *MsgA) (*Reply, error) { return strict(10, m) }
 func restB(m *MsgB) (*Reply, error) { return lenient(11, m) }
 func getE(m *GetE) (*Reply, error)  { return &Reply{12, "const", 42, true, nil}, nil }
@@ -134,7 +167,7 @@ func getD(m *GetD) (*Reply, error) {
 
 func newSvc(c *onet.Context) (onet.Service, error) {
 	s := &svc{ServiceProcessor: onet.NewServiceProcessor(c)}
-	if err := s.RegisterHandlers(wsA, wsB); err != nil {
+	if err := s.RegisterHandlers(wsA, wsB, wsG); err != nil {
 		return nil, err
 	}
 	for _, r := range []struct {
@@ -151,7 +184,7 @@ func newSvc(c *onet.Context) (onet.Service, error) {
 
 var resNames = []string{"MsgA", "MsgB", "GetE", "GetI", "GetD"}
 var resSubtree = []bool{false, false, false, true, true}
-var wsNames = []string{"MsgA", "MsgB"}
+var wsNames = []string{"MsgA", "MsgB", "MsgG"}
 
 // ---------------------------------------------------------------- inputs
 
@@ -205,6 +238,12 @@ type input struct {
 	Kind    string   `json:"kind"`
 	Clients []client `json:"clients"`
 	Rounds  [][]req  `json:"rounds"`
+	// Scripts[i], if present and non-empty, drives round i through the gates of the
+	// MsgG handler: op k >= 0 starts request k of the round, op -1 releases the
+	// oldest request that waits at its gate. Every op is followed by a wait until
+	// all outstanding requests are blocked (in a handler, on the client's
+	// connection lock, or reading the reply).
+	Scripts [][]int `json:"scripts,omitempty"`
 }
 
 // ---------------------------------------------------------------- observations
@@ -355,7 +394,12 @@ type actor struct {
 	tr   *http.Transport
 }
 
-func doREST(a *actor, base string, r *restReq) obsReply {
+func doREST(a *actor, base string, r *restReq) (o obsReply) {
+	defer func() {
+		if rc := recover(); rc != nil {
+			o = obsReply{Class: "EOther", Raw: "client panic: " + short(fmt.Sprint(rc))}
+		}
+	}()
 	name := "Nope"
 	sub := false
 	if r.Res >= 0 && r.Res < len(resNames) {
@@ -432,7 +476,11 @@ func doWS(a *actor, srv *onet.Server, w *wsReq) (o obsReply) {
 
 var registerOnce sync.Once
 
-func runScenario(in *input) (obs [][]obsReply, discard bool) {
+const roundDeadline = 12 * time.Second
+
+// runScenario returns the observations of the rounds that were run; hung = the last of
+// them did not end (the process must not be reused: goroutines are stuck).
+func runScenario(in *input) (obs [][]obsReply, discard bool, hung bool) {
 	registerOnce.Do(func() {
 		log.SetDebugVisible(0)
 		log.OutputToBuf()
@@ -448,7 +496,7 @@ func runScenario(in *input) (obs [][]obsReply, discard bool) {
 	defer l.CloseAll()
 	port, err := strconv.Atoi(srv.ServerIdentity.Address.Port())
 	if err != nil {
-		return nil, true
+		return nil, true, false
 	}
 	base := "http://" + srv.ServerIdentity.Address.Host() + ":" + strconv.Itoa(port+1)
 	// the scenario is reached only if the websocket port answers
@@ -464,7 +512,7 @@ func runScenario(in *input) (obs [][]obsReply, discard bool) {
 	}
 	okc.CloseIdleConnections()
 	if !reached {
-		return nil, true
+		return nil, true, false
 	}
 	actors := make([]*actor, len(in.Clients))
 	for i, c := range in.Clients {
@@ -489,34 +537,61 @@ func runScenario(in *input) (obs [][]obsReply, discard bool) {
 			a.tr.CloseIdleConnections()
 		}
 	}()
-	for _, rd := range in.Rounds {
+	for ri, rd := range in.Rounds {
 		out := make([]obsReply, len(rd))
-		var wg sync.WaitGroup
-		for i := range rd {
+		done := make([]chan struct{}, len(rd))
+		exec1 := func(i int) {
+			defer close(done[i])
 			r := rd[i]
-			if r.Client < 0 || r.Client >= len(actors) {
-				panic("bad client index")
-			}
 			a := actors[r.Client]
-			run := func(i int) {
-				defer wg.Done()
-				if r.Ws != nil {
-					out[i] = doWS(a, srv, r.Ws)
-				} else {
-					out[i] = doREST(a, base, r.Rest)
-				}
-			}
-			wg.Add(1)
-			if len(rd) == 1 {
-				run(i)
+			if r.Ws != nil {
+				out[i] = doWS(a, srv, r.Ws)
 			} else {
-				go run(i)
+				out[i] = doREST(a, base, r.Rest)
 			}
 		}
-		wg.Wait()
+		for i := range rd {
+			if rd[i].Client < 0 || rd[i].Client >= len(actors) {
+				panic("bad client index")
+			}
+			done[i] = make(chan struct{})
+		}
+		if ri < len(in.Scripts) && len(in.Scripts[ri]) > 0 {
+			runScripted(rd, in.Scripts[ri], exec1, done)
+		} else if len(rd) == 1 {
+			exec1(0)
+		} else {
+			for i := range rd {
+				go exec1(i)
+			}
+		}
+		// a round that does not end (a lock left held, a lost reply) ends the scenario
+		deadline := time.After(roundDeadline)
+		hung := false
+		for i := range rd {
+			select {
+			case <-done[i]:
+			case <-deadline:
+				hung = true
+			}
+			if hung {
+				break
+			}
+		}
+		if hung {
+			for i := range rd {
+				select {
+				case <-done[i]:
+				default:
+					out[i] = obsReply{Class: "ETransport", Raw: "no reply and no error within " + roundDeadline.String()}
+				}
+			}
+			obs = append(obs, out)
+			return obs, false, true
+		}
 		obs = append(obs, out)
 	}
-	return obs, false
+	return obs, false, false
 }
 
 // ---------------------------------------------------------------- Coq terms
@@ -731,24 +806,325 @@ func wsFails(in *input, r req) bool {
 	return w.Path == 0 && s == ""
 }
 
+// ---------------------------------------------------------------- scripted rounds
+
+// outstandingBlocked reports how many goroutines are inside Client.Send and whether all of
+// them are blocked (on the connection lock, in the network, ...), plus a fingerprint
+// of where they are, read off the goroutine dump.
+func sendGoroutines() (n int, allBlocked bool, fp string) {
+	buf := make([]byte, 1<<20)
+	buf = buf[:runtime.Stack(buf, true)]
+	allBlocked = true
+	var fps []string
+	for _, g := range strings.Split(string(buf), "\n\n") {
+		if !strings.Contains(g, "onet/v3.(*Client).Send(") {
+			continue
+		}
+		n++
+		lines := strings.SplitN(g, "\n", 3)
+		hdr := lines[0]
+		st := ""
+		if i := strings.Index(hdr, "["); i >= 0 {
+			st = strings.TrimSuffix(strings.TrimSpace(hdr[i+1:]), "]:")
+			if j := strings.Index(st, ","); j >= 0 {
+				st = st[:j]
+			}
+		}
+		if st == "running" || st == "runnable" || st == "syscall" || st == "sleep" {
+			allBlocked = false
+		}
+		top := ""
+		if len(lines) > 1 {
+			top = lines[1]
+			if j := strings.Index(top, "("); j >= 0 {
+				top = top[:j]
+			}
+		}
+		fps = append(fps, st+"@"+top)
+	}
+	sortStrings(fps)
+	return n, allBlocked, strings.Join(fps, ";")
+}
+
+func sortStrings(a []string) {
+	for i := 1; i < len(a); i++ {
+		for j := i; j > 0 && a[j] < a[j-1]; j-- {
+			a[j], a[j-1] = a[j-1], a[j]
+		}
+	}
+}
+
+// settle waits until the requests in flight are all blocked and stay where they are.
+// It only shapes the interleaving; no verdict depends on it.
+func settle(done []chan struct{}, started []bool) {
+	stable := 0
+	last := ""
+	for t := 0; t < 400; t++ {
+		time.Sleep(2 * time.Millisecond)
+		out := 0
+		for i, st := range started {
+			if st {
+				select {
+				case <-done[i]:
+				default:
+					out++
+				}
+			}
+		}
+		n, blocked, fp := sendGoroutines()
+		if n == out && blocked && fp == last {
+			stable++
+			if stable >= 3 {
+				return
+			}
+		} else {
+			stable = 0
+		}
+		last = fp
+	}
+}
+
+func runScripted(rd []req, script []int, exec1 func(int), done []chan struct{}) {
+	started := make([]bool, len(rd))
+	ids := map[int64]*gate{}
+	for _, r := range rd {
+		if r.Ws != nil && r.Ws.Path == 2 && r.Ws.I != nil {
+			g := &gate{release: make(chan struct{})}
+			ids[*r.Ws.I] = g
+			gates.Store(*r.Ws.I, g)
+		}
+	}
+	defer func() {
+		for id, g := range ids {
+			g.open()
+			gates.Delete(id)
+		}
+	}()
+	for len(gateArrived) > 0 {
+		<-gateArrived
+	}
+	var waiting []int64
+	drain := func() {
+		for {
+			select {
+			case id := <-gateArrived:
+				waiting = append(waiting, id)
+			default:
+				return
+			}
+		}
+	}
+	for _, op := range script {
+		if op >= 0 && op < len(rd) && !started[op] {
+			started[op] = true
+			go exec1(op)
+		} else if op == -1 {
+			drain()
+			if len(waiting) > 0 {
+				if g, ok := ids[waiting[0]]; ok {
+					g.open()
+				}
+				waiting = waiting[1:]
+			}
+		}
+		settle(done, started)
+		drain()
+	}
+	for _, g := range ids {
+		g.open()
+	}
+	for i := range rd {
+		if !started[i] {
+			started[i] = true
+			go exec1(i)
+		}
+	}
+}
+
+// ---------------------------------------------------------------- child process
+
+// Scenarios run in a child process (this binary with -c14child): a panic or a fatal
+// runtime error of the code under test in any goroutine, or a hang, ends the child and
+// becomes the observation of the scenario that was running, not the end of the harness.
+// Protocol: the parent writes one input per line on the child's stdin; the child
+// answers on fd 3 with one line "R <json round observations>" per round and then "D",
+// "X" (scenario not reached) or "H" (round hung; the child exits).
+
+func childMain() {
+	out := bufio.NewWriter(os.NewFile(3, "results"))
+	in := bufio.NewReaderSize(os.Stdin, 1<<20)
+	say := func(s string) { out.WriteString(s + "\n"); out.Flush() }
+	for {
+		line, err := in.ReadBytes('\n')
+		if len(line) == 0 && err != nil {
+			return
+		}
+		var inp input
+		if jerr := json.Unmarshal(line, &inp); jerr != nil {
+			say("X")
+			continue
+		}
+		obs, discard, hung := func() (o [][]obsReply, d bool, h bool) {
+			defer func() {
+				// the scenario could not be set up (e.g. the port picked for the
+				// test server was taken in the meantime): not reached, not reported
+				if r := recover(); r != nil {
+					fmt.Fprintln(os.Stderr, "setup panic:", r)
+					o, d, h = nil, true, false
+				}
+			}()
+			return runScenario(&inp)
+		}()
+		if discard {
+			say("X")
+			continue
+		}
+		for _, rd := range obs {
+			b, _ := json.Marshal(rd)
+			say("R " + string(b))
+		}
+		if hung {
+			say("H")
+			os.Exit(3)
+		}
+		say("D")
+	}
+}
+
+type child struct {
+	cmd    *exec.Cmd
+	stdin  *bufio.Writer
+	lines  chan string
+	stderr *tailBuf
+}
+
+type tailBuf struct {
+	mu sync.Mutex
+	b  []byte
+}
+
+func (t *tailBuf) Write(p []byte) (int, error) {
+	t.mu.Lock()
+	defer t.mu.Unlock()
+	t.b = append(t.b, p...)
+	if len(t.b) > 1<<16 {
+		t.b = t.b[:1<<16] // keep the beginning: the first panic / fatal error line
+	}
+	return len(p), nil
+}
+
+// why the child died: the first "panic:" / "fatal error:" line of its stderr
+func (t *tailBuf) reason() string {
+	t.mu.Lock()
+	defer t.mu.Unlock()
+	for _, l := range strings.Split(string(t.b), "\n") {
+		if strings.HasPrefix(l, "panic:") || strings.HasPrefix(l, "fatal error:") {
+			return short(l)
+		}
+	}
+	return "no panic message"
+}
+
+var theChild *child
+
+func startChild() *child {
+	cmd := exec.Command(os.Args[0], "-c14child")
+	pr, pw, err := os.Pipe()
+	if err != nil {
+		panic(err)
+	}
+	cmd.ExtraFiles = []*os.File{pw}
+	w, err := cmd.StdinPipe()
+	if err != nil {
+		panic(err)
+	}
+	tb := &tailBuf{}
+	cmd.Stderr = tb
+	cmd.Stdout = tb
+	if err := cmd.Start(); err != nil {
+		panic(err)
+	}
+	pw.Close()
+	c := &child{cmd: cmd, stdin: bufio.NewWriter(w), lines: make(chan string, 64), stderr: tb}
+	go func() {
+		sc := bufio.NewScanner(pr)
+		sc.Buffer(make([]byte, 1<<20), 1<<26)
+		for sc.Scan() {
+			c.lines <- sc.Text()
+		}
+		close(c.lines)
+		pr.Close()
+	}()
+	return c
+}
+
+func (c *child) kill() {
+	c.cmd.Process.Kill()
+	c.cmd.Wait()
+}
+
+// runInChild returns the observed rounds, and why the scenario ended early ("" = it did not)
+func runInChild(raw []byte) (obs [][]obsReply, discard bool, died string) {
+	if theChild == nil {
+		theChild = startChild()
+	}
+	c := theChild
+	c.stdin.Write(bytes.TrimSpace(raw))
+	c.stdin.WriteString("\n")
+	c.stdin.Flush()
+	for {
+		select {
+		case l, ok := <-c.lines:
+			if !ok {
+				c.cmd.Wait()
+				theChild = nil
+				return obs, false, "the process running the scenario died: " + c.stderr.reason()
+			}
+			switch {
+			case l == "D":
+				return obs, false, ""
+			case l == "X":
+				return nil, true, ""
+			case l == "H":
+				c.kill()
+				theChild = nil
+				return obs, false, "hung"
+			case strings.HasPrefix(l, "R "):
+				var rd []obsReply
+				if err := json.Unmarshal([]byte(l[2:]), &rd); err != nil {
+					panic(err)
+				}
+				obs = append(obs, rd)
+			}
+		case <-time.After(90 * time.Second):
+			c.kill()
+			theChild = nil
+			return obs, false, "the process running the scenario did not answer for 90 s"
+		}
+	}
+}
+
 func run(raw json.RawMessage) lib.Case {
 	var in input
 	if err := json.Unmarshal(raw, &in); err != nil {
 		panic(err)
 	}
-	obs, discard := func() (o [][]obsReply, d bool) {
-		defer func() {
-			// the scenario could not be set up (e.g. the port picked for the
-			// test server was taken in the meantime): not reached, not reported
-			if r := recover(); r != nil {
-				o, d = nil, true
-			}
-		}()
-		return runScenario(&in)
-	}()
+	obs, discard, died := runInChild(raw)
 	if discard {
 		return lib.Case{Discard: true}
 	}
+	crashed := died != ""
+	if died != "" && died != "hung" && len(obs) < len(in.Rounds) {
+		// the round that was running when the process died: nobody was answered
+		rd := in.Rounds[len(obs)]
+		out := make([]obsReply, len(rd))
+		for i := range out {
+			out[i] = obsReply{Class: "ETransport", Raw: died}
+		}
+		obs = append(obs, out)
+	}
+	// rounds after a crash or a hang were not run and are not part of the case
+	in.Rounds = in.Rounds[:len(obs)]
 	cl := make([]string, len(in.Clients))
 	for i, c := range in.Clients {
 		cl[i] = fmt.Sprintf("(CKind %s %s)", lib.Bool(c.Keep), lib.Bool(c.Svc))
@@ -768,7 +1144,15 @@ func run(raw json.RawMessage) lib.Case {
 		obl[i] = lib.List(os)
 	}
 	coq := fmt.Sprintf("Case %s\n    %s\n    %s", lib.List(cl), lib.List(rds), lib.List(obl))
-	return lib.Case{Coq: coq, Class: classOf(&in), Obs: obs, Nontrivial: n > 1}
+	class := classOf(&in)
+	if crashed {
+		class += "-crash"
+	}
+	var inp interface{}
+	if crashed {
+		inp = json.RawMessage(raw) // replay the whole scenario, not the truncated one
+	}
+	return lib.Case{Coq: coq, Class: class, Input: inp, Obs: obs, Nontrivial: n > 1}
 }
 
 // ---------------------------------------------------------------- generator
@@ -809,7 +1193,7 @@ func genWS(rng *rand.Rand, mostlyValid bool) *wsReq {
 	x := rng.Intn(100)
 	switch {
 	case x < 4:
-		w.Path = 2 + rng.Intn(2) // not registered
+		w.Path = 3 + rng.Intn(2) // not registered
 	case x < 10:
 		w.Garbage = garbage[rng.Intn(len(garbage))]
 		return w
@@ -1072,6 +1456,14 @@ func generate(rng *rand.Rand, tier string) []interface{} {
 		ins = append(ins, in)
 	}
 
+	// (a'') ONE client shared by 3-6 goroutines on the same destination and path, the overlap
+	//      forced through the gates of the MsgG handler: a failing request among succeeding
+	//      ones, requests queueing on the client's connection lock while another is in
+	//      its handler, new requests starting while a former waiter awaits its reply
+	for n := 0; n < 14*mul; n++ {
+		ins = append(ins, gatedScenario(rng, n))
+	}
+
 	// (b) sequential REST histories
 	for n := 0; n < 45*mul; n++ {
 		nc := 1 + rng.Intn(3)
@@ -1150,6 +1542,56 @@ func generate(rng *rand.Rand, tier string) []interface{} {
 	return ins
 }
 
+// gatedScenario: 1-3 scripted rounds on the gated websocket path. Client 0 keeps its
+// connections (every third scenario: single-use) and is shared by all requests of a
+// round; sometimes a second client joins.
+func gatedScenario(rng *rand.Rand, n int) input {
+	in := input{Kind: "gated", Clients: []client{{Keep: n%3 != 2, Svc: true}, {Keep: true, Svc: true}}}
+	rounds := 1 + rng.Intn(3)
+	for r := 0; r < rounds; r++ {
+		k := 3 + rng.Intn(4)
+		var rd []req
+		failAt := rng.Intn(k) // at least one failing request per round, often the first
+		if rng.Intn(2) == 0 {
+			failAt = 0
+		}
+		for j := 0; j < k; j++ {
+			sv := fmt.Sprintf("g%dr%dq%d", n, r, j)
+			if j == failAt || rng.Intn(6) == 0 {
+				sv = []string{"fail-", "panic-"}[rng.Intn(2)] + sv
+			}
+			c := 0
+			if rng.Intn(8) == 0 {
+				c = 1
+			}
+			id := int64(1000*(r+1) + j + 1)
+			rd = append(rd, req{Client: c, Ws: &wsReq{Path: 2, S: sp(sv), I: ip(id), B: bp(j%2 == 0), D: sp(dPool[rng.Intn(len(dPool))])}})
+		}
+		in.Rounds = append(in.Rounds, rd)
+		in.Scripts = append(in.Scripts, gateScript(rng, k))
+	}
+	return in
+}
+
+// a random well-bracketed sequence of k starts (0..k-1, in order) and k releases (-1),
+// beginning with two starts so that one request queues behind the first
+func gateScript(rng *rand.Rand, k int) []int {
+	sc := []int{0, 1}
+	started, released := 2, 0
+	for started < k || released < k {
+		canStart := started < k
+		canRelease := released < started
+		if canStart && (!canRelease || rng.Intn(2) == 0) {
+			sc = append(sc, started)
+			started++
+		} else {
+			sc = append(sc, -1)
+			released++
+		}
+	}
+	return sc
+}
+
 func tornStress() input {
 	in := input{Kind: "witness"}
 	for i := 0; i < 16; i++ {
@@ -1191,6 +1633,17 @@ func corpus() []interface{} {
 		// F17 as a data race: concurrent GET-by-bytes requests of different lengths write the
 		// one shared byte slice; a handler may receive a torn slice (not deterministic)
 		tornStress(),
+		// one keeping client shared by three goroutines: the first request fails while the
+		// second waits for the connection; the third starts while the second awaits its reply
+		input{Kind: "witness", Clients: []client{{Keep: true, Svc: true}},
+			Rounds: [][]req{{
+				{Client: 0, Ws: &wsReq{Path: 2, S: sp("fail-first"), I: ip(1001), B: bp(true), D: sp("")}},
+				{Client: 0, Ws: &wsReq{Path: 2, S: sp("second"), I: ip(1002), B: bp(false), D: sp("0102")}},
+				{Client: 0, Ws: &wsReq{Path: 2, S: sp("third"), I: ip(1003), B: bp(true), D: sp("ff")}},
+			}, {
+				{Client: 0, Ws: &wsReq{Path: 2, S: sp("after"), I: ip(7), B: bp(true), D: sp("")}},
+			}},
+			Scripts: [][]int{{0, 1, -1, 2, -1, -1}}},
 		// the same history on a single-use client is fine
 		input{Kind: "witness", Clients: []client{{Keep: false, Svc: true}}, Rounds: [][]req{
 			ws(0, "a"), ws(0, "fail-1"), ws(0, "a"), ws(0, "panic-1"), ws(0, "hello"),
@@ -1199,12 +1652,23 @@ func corpus() []interface{} {
 }
 
 func main() {
+	if len(os.Args) > 1 && os.Args[1] == "-c14child" {
+		childMain()
+		return
+	}
+	defer func() {
+		if theChild != nil {
+			theChild.kill()
+		}
+	}()
 	lib.Main(lib.Harness{
 		Prop:   "C14",
 		Import: "Onet.Corr.C14",
 		Rule: "scenarios against a service registered through the public API on a real server: all ordered pairs of a " +
 			"12-body catalogue on POST and PUT; seeded sequential REST / websocket / mixed histories; concurrent rounds of " +
-			"1-16 clients (kept and single-use connections); requests valid, partial, malformed, failing, panicking, " +
+			"1-16 clients (kept and single-use connections); one client shared by 3-6 goroutines on one destination with " +
+			"the overlap forced through gated handlers (failing request first, waiters on the connection lock, late starters); " +
+			"every scenario in a child process whose death or hang is that scenario's observation; requests valid, partial, malformed, failing, panicking, " +
 			"mis-routed; non-trivial = more than one request; distinct = distinct Coq case term",
 		Shard:    25,
 		Generate: generate,
